@@ -1,4 +1,4 @@
-\* input generation: all class strings of length <= 4 (11111 states)
+\* input generation: all class strings of length <= 4 (22621 states)
 SPECIFICATION GenSpec
 CONSTANTS MaxLen = 4 MaxTokens = 0 MaxPos = 0
 INVARIANT GenTypeOK
